@@ -1,4 +1,4 @@
-CONSTANTS MaxTokens = 9  MaxNest = 3  OnlyValid = FALSE
+CONSTANTS MaxTokens = 9  MaxNest = 3  OnlyValid = FALSE  Small = FALSE
 SPECIFICATION Spec
 INVARIANTS AcceptHasType AcceptBalanced Emit EmitPrefix
 CHECK_DEADLOCK FALSE
